@@ -31,6 +31,10 @@
          conditions of Inv04 (SHORT-NAME elements carry a SHORT-NAME type, their text has no '/', an identifiable element has
          an item name, character elements hold at most one text) and SnNamed (a SHORT-NAME first child only below an
          element of a named type): properties of the loaded DOCUMENT, not derived from the parser here.
+       - C06_load_keeps_referrers[_real]: EVERY accepted load (first file or merge) extends the referrer lists: each
+         element registered under a text before is still registered under it, exactly the reference elements the parser
+         recorded for the new file are added (each under its text), the keys stay distinct, no other model changes
+         (the clause the seed C06-load-referrers-extend-replaces broke: it replaced the lists).
        STILL PENDING: Inv04 / Inv05D after a MERGING load (second and later files), loads into a world with several
        models, moves in loaded worlds. *)
 From AV Require Import Base.Bytes Base.Outcome Hash.HashModel Spec.SpecOps Spec.SpecReal Tree.Heap Tree.Ops Tree.Script Tree.Script2
@@ -39,7 +43,8 @@ From AV Require Import Base.Bytes Base.Outcome Hash.HashModel Spec.SpecOps Spec.
   Tree.Follow Tree.FollowL Tree.FollowProofsRename Tree.FollowProofsAll Tree.FollowProofsL Tree.FollowProofsRenameD
   Tree.FollowProofsOp2 Tree.FollowProofsReal Tree.FollowWitnessLoad.
 From AV Require Import Tree.InvEBase Tree.InvLoad Tree.InvProofsLoadLive Tree.FollowProofsLoad Tree.FollowProofsLoadMain
-  Tree.FollowProofsLoadTop Tree.FollowProofsLoadReal.
+  Tree.FollowProofsLoadTop Tree.FollowProofsLoadReal Tree.FollowProofsLoadKeepRefs Tree.MergeSpec.
+From AV Require Xml.TablesOkReal Xml.LoadRecordsExamples.
 From AV Require Xml.Parser Xml.TablesOk Xml.LoadRecordsRegular.
 Import Tiny.
 Open Scope list_scope.
@@ -278,3 +283,40 @@ Theorem C06_load_then_rename_real :
   (forall r p old, ~ dead w1 r -> SpecPath RT w1 0 h old -> ref_text RT w1 r = Some p ->
                    ~ (live_ref RT w1 0 r /\ old_form old p) -> ref_text RT w2 r = Some p).
 Proof. exact load_then_rename_real. Qed.
+
+(* ====================================================================== the load clause: referrer lists are extended *)
+
+(* [U] every accepted load_buffer - first file or merge, strict or not.  NoDupKeys (m_origins x): the keys of the referrer
+   map are distinct (part of Inv05 / Inv05D; an IndexMap in the code).  refs_of: the reference elements of the parsed
+   tree with their texts (Tree/MergeSpec.v), t: the ids the elements of the new file got *)
+Theorem C06_load_keeps_referrers :
+  forall (T : tables) (tab_el tab_at tab_en : nametab) (check_fn : N -> list N -> res bool)
+         (float_parse : list N -> option N) (LATEST name_definition_ref : N)
+         (m : N) (buffer filename : list N) (strict : bool) (w : world) (x : model) (f : N) (ws : list Parser.perror) (w' : world),
+  TablesOk.tables_ok T = true -> LoadRecordsRegular.ref_charsb T = true ->
+  nth_opt (w_models w) (N.to_nat m) = Some x -> NoDupKeys (m_origins x) ->
+  m_load_buffer T tab_el tab_at tab_en check_fn float_parse LATEST name_definition_ref m buffer filename strict w = Val (OK (f, ws), w') ->
+  exists root st t x',
+    Parser.load strict T tab_el tab_at tab_en check_fn float_parse buffer = Val (Parser.Ret root st) /\
+    nth_opt (w_models w') (N.to_nat m) = Some x' /\ NoDupKeys (m_origins x') /\
+    (forall p e, In e (origins_of x p) -> In e (origins_of x' p)) /\
+    (forall p e, In e (origins_of x' p) <->
+                 In e (origins_of x p) \/ exists pos, In (p, pos) (refs_of T [] root) /\ it_at t pos = Some e) /\
+    (forall m2, m2 <> m -> nth_opt (w_models w') (N.to_nat m2) = nth_opt (w_models w) (N.to_nat m2)).
+Proof. exact load_buffer_origins. Qed.
+
+(* [F tables] the generated tables *)
+Theorem C06_load_keeps_referrers_real :
+  forall (tab_el tab_at tab_en : nametab) (check_fn : N -> list N -> res bool)
+         (float_parse : list N -> option N) (LATEST name_definition_ref : N)
+         (m : N) (buffer filename : list N) (strict : bool) (w : world) (x : model) (f : N) (ws : list Parser.perror) (w' : world),
+  nth_opt (w_models w) (N.to_nat m) = Some x -> NoDupKeys (m_origins x) ->
+  m_load_buffer RT tab_el tab_at tab_en check_fn float_parse LATEST name_definition_ref m buffer filename strict w = Val (OK (f, ws), w') ->
+  exists root st t x',
+    Parser.load strict RT tab_el tab_at tab_en check_fn float_parse buffer = Val (Parser.Ret root st) /\
+    nth_opt (w_models w') (N.to_nat m) = Some x' /\ NoDupKeys (m_origins x') /\
+    (forall p e, In e (origins_of x p) -> In e (origins_of x' p)) /\
+    (forall p e, In e (origins_of x' p) <->
+                 In e (origins_of x p) \/ exists pos, In (p, pos) (refs_of RT [] root) /\ it_at t pos = Some e) /\
+    (forall m2, m2 <> m -> nth_opt (w_models w') (N.to_nat m2) = nth_opt (w_models w) (N.to_nat m2)).
+Proof. exact load_buffer_origins_real. Qed.
